@@ -13,7 +13,7 @@ echo "--- demo on the unchanged tree"
 cargo test --offline --test "$NAME" 2>&1 | grep -E "^test result|^error|panicked|FAILED|failed" | head -6
 git apply "$OUT/patch.diff" || { echo "patch does not apply"; exit 2; }
 echo "--- demo with the patch"
-cargo test --offline --test "$NAME" > /tmp/vfy_demo_patched.log 2>&1
+timeout -k 5 400 cargo test --offline --test "$NAME" > /tmp/vfy_demo_patched.log 2>&1 || echo "(demo with the patch: non-zero exit or killed after 400 s)"
 grep -E "^test result" /tmp/vfy_demo_patched.log | head -3
 grep -E "^error|panicked|FAILED|failed" /tmp/vfy_demo_patched.log | head -6
 rm -f "tests/$NAME.rs"
